@@ -11,7 +11,8 @@ from .. import lib
 
 THROW = {"int": "throw(1)", "string": 'throw("s")', "rt": 'throw_runtime("x")', "oor": "throw_range()", "logic": "throw_logic()",
          "badcast": "throw_badcast()", "ee": "throw_ee()", "user": "throw_user()",
-         "srt": 'throw(runtime_error("x"))', "sbase": "throw(BaseC())", "sder": "throw(DerivedC())", "dyn": "throw(MyErr())"}
+         "srt": 'throw(runtime_error("x"))', "sbase": "throw(BaseC())", "sder": "throw(DerivedC())", "dyn": "throw(MyErr())",
+         "rtc": "throw_runtime_d(1)", "oorc": "throw_range_d(1)", "logicc": "throw_logic_d(1)", "eec": "throw_ee_d(1)", "userc": "throw_user_d(1)"}
 FRAMES = ["direct", "def", "lambda", "method", "bind", "for_each", "attr"]
 PRELUDE = ("class MyErr { def MyErr() { } }; class ThrowerK { def ThrowerK() { }; def go(f) { f() } }; global thrower_obj = ThrowerK(); "
            "global attr_obj = Dynamic_Object(); def call_it(f) { f() }; 0")
@@ -59,7 +60,9 @@ def expected_outcome(esc):
     return {"none": ("val", None, None), "ret": ("val", "int:77", None), "int": ("bv", "int:1", None), "string": ("bv", 'string:"s"', None),
             "rt": ("ex", None, "std::runtime_error"), "oor": ("ex", None, "std::out_of_range"), "logic": ("ex", None, "std::logic_error"),
             "badcast": ("ex", None, "std::bad_cast"), "ee": ("ee", None, None), "user": ("other", None, "vh::UserEx"),
-            "srt": ("bv", "<runtime_error>", None), "sbase": ("bv", "<BaseC>", None), "sder": ("bv", "<DerivedC>", None), "dyn": ("bv", "obj:MyErr{}", None)}[esc]
+            "srt": ("bv", "<runtime_error>", None), "sbase": ("bv", "<BaseC>", None), "sder": ("bv", "<DerivedC>", None), "dyn": ("bv", "obj:MyErr{}", None),
+            "rtc": ("ex", None, "std::runtime_error"), "oorc": ("ex", None, "std::out_of_range"), "logicc": ("ex", None, "std::logic_error"),
+            "eec": ("ee", None, None), "userc": ("other", None, "vh::UserEx")}[esc]
 
 
 def shape(prog):
@@ -78,7 +81,7 @@ def shape(prog):
 
 def uses_user_untyped(prog):
     s = shape(prog)
-    return "Tuser" in s and "c(*)" in s
+    return ("Tuser" in s) and "c(*)" in s
 
 
 def run(ck, tier, seed):
@@ -92,10 +95,11 @@ def run(ck, tier, seed):
         ck.notes.append(f"refinement evaluated on {m.group(1)} programs; {m.group(2)} disagreements, all throwing a non-std C++ type (known finding)")
     if not res.ok:
         ck.violation("model:refinement", f"the transcription of Try_AST_Node does not refine the reference: {res.violation}", res.output[-3000:])
-    for cfg in ("ExceptionsM_pinned1", "ExceptionsM_pinned2", "ExceptionsM_pinned3", "ExceptionsM_pinned4"):
-        r2 = lib.tlc("ExceptionsM", cfg, workers=1, timeout=900)
-        if r2.ok:
-            raise lib.Infra(f"sanity: {cfg} must be refuted by TLC, it was not")
+    pinned = ("ExceptionsM_pinned1", "ExceptionsM_pinned2", "ExceptionsM_pinned3", "ExceptionsM_pinned4")
+    with ThreadPoolExecutor(max_workers=4) as ex:
+        for cfg, r2 in zip(pinned, ex.map(lambda c: lib.tlc("ExceptionsM", c, workers=1, timeout=900), pinned)):
+            if r2.ok:
+                raise lib.Infra(f"sanity: {cfg} must be refuted by TLC, it was not")
     ck.notes.append("sanity: swallowing unmatched exceptions, skipping finally after an abnormal handler exit and type-pair matching are each refuted by TLC")
 
     work = lib.scratch("c10")
